@@ -311,7 +311,7 @@ def diff_streams(go_lines, model_lines):
         m = ms[i] if i < len(ms) else []
         for j in range(max(len(g), len(m))):
             a = strip_note(g[j]) if j < len(g) else "<missing>"
-            b = m[j] if j < len(m) else "<missing>"
+            b = strip_note(m[j]) if j < len(m) else "<missing>"
             if a != b:
                 diffs.append(dict(script=i, op=j, go=g[j] if j < len(g) else "<missing>", model=b))
                 break
